@@ -1,4 +1,6 @@
 """Contracts for lentil/util.py (property C20; used by C02, C09, C11, C17)."""
+from fractions import Fraction
+
 import z3
 
 from lvc import sym as S
@@ -325,3 +327,71 @@ def _centroid_contract():
 
 
 _centroid_contract()
+
+
+# ---------------------------------------------------------------------------------------
+# util.rescale on the real code (C17): where it samples and what it returns.  scipy's map_coordinates is
+# abstract (an uninterpreted interpolant per call that reproduces its input at integer positions).
+
+def _rescale_body_contract(tag, order, mode):
+    c = contract('lentil.util.rescale#%s' % tag, level='I')
+    c.qualname = 'lentil.util.rescale'
+    c.tag = tag
+
+    def params(ctx):
+        img = array(ctx, 'img', shape2(ctx, 'img'), 'float')
+        s = ctx.fresh_real('scale')
+        ctx.assume(s > 0)
+        return {'img': img, 'scale': s, 'shape': None, 'mask': None, 'order': order, 'mode': mode, 'unitary': False}
+    c.params = params
+    c.modifies = set()
+
+    @c.post('samples_the_centred_grid')
+    def _(ctx, env0, env, out):
+        from lvc import prove
+        img, s, res = env0['img'], env0['scale'], out.value
+        n, m = img.shape
+        N, M = S.ceil_(S.mul(n, s)), S.ceil_(S.mul(m, s))
+        name = 'util.rescale::%%s[%s]' % tag
+        ctx.oblige(name % 'shape_is_ceil_n_times_scale', z3.And(S.z(S.eq(res.shape[0], N)), S.z(S.eq(res.shape[1], M))))
+        i, j = ints(ctx, 'i', 'j')
+        inr = [i >= 0, i < S.z(N), j >= 0, j < S.z(M)]
+        if getattr(ctx, 'replaying', False):
+            # the other clauses are about the recorded interpolation calls; on a native outcome only the
+            # identity at scale 1 can be judged
+            prove.with_hyp(ctx, inr + [S.z(S.eq(s, 1))], lambda: ctx.oblige(name % 'identity_at_scale_1', S.eq(res.at((i, j)), img.at((i, j)))))
+            return None
+        calls = ctx.__dict__.get('ghost_map_coordinates', [])
+        ok = len(calls) == 2 and calls[0]['order'] == 1 and calls[0]['mode'] == 'nearest' and calls[1]['order'] == order and calls[1]['mode'] == mode
+        ctx.oblige(name % 'interpolates_support_mask_then_image', ok,
+                   info={'calls': [(c_['order'], c_['mode']) for c_ in calls]})
+        if not ok:
+            return None
+        # output sample (i, j) looks at input position ((i - N/2)/s + n/2, (j - M/2)/s + m/2): the centres
+        # floor-free N/2 and n/2 of the two grids are mapped onto each other and the spacing is 1/s
+        want_y = S.add(S.truediv(S.sub(i, S.truediv(N, 2)), s), S.truediv(n, 2))
+        want_x = S.add(S.truediv(S.sub(j, S.truediv(M, 2)), s), S.truediv(m, 2))
+        for k, what in ((0, 'mask'), (1, 'image')):
+            cl = calls[k]
+            prove.with_hyp(ctx, inr, lambda cl=cl, what=what: ctx.oblige(
+                name % ('%s_sampled_on_the_centred_grid' % what),
+                S.and_(S.eq(cl['yy'].at((i, j)), want_y), S.eq(cl['xx'].at((i, j)), want_x))))
+        p, q = ints(ctx, 'p', 'q')
+        inp = [p >= 0, p < S.z(n), q >= 0, q < S.z(m)]
+        prove.with_hyp(ctx, inp, lambda: ctx.oblige(name % 'interpolated_mask_is_the_support_of_the_image',
+                                                    S.eq(calls[0]['input'].at((p, q)), S.ite(S.ne(img.at((p, q)), 0), 1, 0))))
+        prove.with_hyp(ctx, inp, lambda: ctx.oblige(name % 'interpolated_image_is_the_input', S.eq(calls[1]['input'].at((p, q)), img.at((p, q)))))
+        # result = interpolated image x interpolated support (values below machine epsilon cut to 0)
+        mi = calls[0]['output'].at((i, j))
+        eps = Fraction(1, 2 ** 52)
+        want = S.mul(calls[1]['output'].at((i, j)), S.ite(S.lt(mi, eps), 0, mi))
+        prove.with_hyp(ctx, inr, lambda: ctx.oblige(name % 'interpolated_image_times_interpolated_support', S.eq(res.at((i, j)), want)))
+        # identity at scale 1 (given that the interpolant reproduces its knots)
+        prove.with_hyp(ctx, inr + [S.z(S.eq(s, 1))], lambda: ctx.oblige(name % 'identity_at_scale_1', S.eq(res.at((i, j)), img.at((i, j)))))
+        return None
+    return c
+
+
+_rescale_body_contract('cubic-nearest', 3, 'nearest')
+_rescale_body_contract('order0-constant', 0, 'constant')
+RESCALE_BODY = ['lentil.util.rescale#cubic-nearest', 'lentil.util.rescale#order0-constant']
